@@ -48,13 +48,13 @@ func NewReplayTape(cells []uint32) *Tape {
 	return &Tape{Explicit: append([]uint32(nil), cells...)}
 }
 
-func (t *Tape) next() uint32 {
+func (t *Tape) next(biased bool) uint32 {
 	var v uint32
 	if t.pos < len(t.Explicit) {
 		v = t.Explicit[t.pos]
 	} else if t.rng != nil {
 		x := t.rng.Next()
-		if uint32(x&0xff) < t.zeroBias {
+		if biased && uint32(x&0xff) < t.zeroBias {
 			v = 0
 		} else {
 			v = uint32(x>>8) & 0xffff
@@ -65,16 +65,28 @@ func (t *Tape) next() uint32 {
 	return v
 }
 
-// Choose returns a value in [0,n). n<=1 consumes nothing.
+// Choose returns a value in [0,n), uniformly in search mode (scenario knobs,
+// generated operations, fault positions). n<=1 consumes nothing.
 func (t *Tape) Choose(n int) int {
 	if n <= 1 {
 		return 0
 	}
-	return int(t.next() % uint32(n))
+	return int(t.next(false) % uint32(n))
+}
+
+// ChooseSched returns a value in [0,n) biased towards 0, the default
+// alternative (keep running the same task, deliver everything): used for
+// scheduling and delivery decisions, so that most steps are unremarkable and
+// pre-emptions are sparse. The bias itself is a per-run knob.
+func (t *Tape) ChooseSched(n int) int {
+	if n <= 1 {
+		return 0
+	}
+	return int(t.next(true) % uint32(n))
 }
 
 // Raw returns the next cell unreduced (16 bits of entropy in search mode).
-func (t *Tape) Raw() uint32 { return t.next() }
+func (t *Tape) Raw() uint32 { return t.next(false) }
 
 // Bool: true with cell != 0 reduced mod 2... the default (cell 0) is false.
 func (t *Tape) Bool() bool { return t.Choose(2) == 1 }
